@@ -1,13 +1,16 @@
 #!/usr/bin/env python3
-"""store_mutants.py <PROP> <worktree> <name>=<status> ...
+"""store_mutants.py <PROP> <worktree> <name>[:<stored-name>]=<status> ...
 Copies <worktree>/MUTANTS/<name>/{patch.diff,README.md,demo_test.go} to
 /verif/seeded/<PROP>-<name>/ and writes meta.json (status: free text, e.g. 'detected')."""
 import json, os, shutil, sys, re
 prop, wt = sys.argv[1], sys.argv[2]
 for arg in sys.argv[3:]:
     name, status = arg.split('=', 1)
+    short = None
+    if ':' in name:  # <dir in MUTANTS>:<name under /verif/seeded> (later rounds)
+        name, short = name.split(':', 1)
     src = os.path.join(wt, 'MUTANTS', name)
-    short = name.split('-')[0]
+    short = short or name.split('-')[0]
     dst = '/verif/seeded/%s-%s' % (prop, short)
     os.makedirs(dst, exist_ok=True)
     shutil.copy(src + '/patch.diff', dst + '/patch.diff')
@@ -21,7 +24,7 @@ for arg in sys.argv[3:]:
         "produced_by": "fresh sub-agent given only the property text and its own scratch worktree (%s)" % wt,
         "confirmed": {"existing_suite_passes_with_change": True, "demo_fails_with_change": True, "demo_passes_without_change": True,
                       "how": "tools/confirm_mutant.sh in the scratch worktree"},
-        "check_result": {"command": "tools/run_mutant.sh seeded/%s-%s/patch.diff %s --tier quick" % (prop, short, prop), "status": status, "tier": "quick"},
+        "check_result": {"command": "tools/run_mutant_wt.sh seeded/%s-%s/patch.diff %s --tier quick" % (prop, short, prop), "status": status, "tier": "quick"},
         "demo_file_note": "demo_test.go.txt is the demonstration test (renamed so that it is never compiled from /verif)",
     }, open(dst + '/meta.json', 'w'), indent=1)
     print('stored', dst)
